@@ -6,6 +6,13 @@ from remerkleable.basic import uint, uint8, uint16, uint32, uint64, uint128, uin
 THEOREMS = ["C13_ctor", "C13_exact", "C13_never_widens", "C13_other_width_refused", "C13_bitwise_total",
             "C13_divmod_total", "C13_sub", "C13_lshift", "C13_rshift", "C13_reflected_shift_refused",
             "C13_invert", "C13_neg_truediv_unsupported", "C13_pow"]
+# second tie: class uint of remerkleable/basic.py is TRANSLATED on every run (harness/translate_uint.py, fail-closed) and
+# the generated definitions are proved equal to the model the C13 theorems are about (coq/trans/UintEq.v)
+TRANSLATED = {"translator": "translate_uint", "source": "remerkleable/basic.py", "gen": "UintGen.v", "proofs": "UintEq.v",
+              "theorems": ["eq_new", "eq_coerce_view", "eq_add", "eq_radd", "eq_sub", "eq_rsub", "eq_mul", "eq_rmul", "eq_mod",
+                           "eq_rmod", "eq_floordiv", "eq_rfloordiv", "eq_truediv", "eq_rtruediv", "eq_pow", "eq_rpow",
+                           "eq_lshift", "eq_rlshift", "eq_rshift", "eq_rrshift", "eq_and", "eq_rand", "eq_xor", "eq_rxor",
+                           "eq_or", "eq_ror", "eq_neg", "eq_invert", "eq_pos", "eq_abs"]}
 COQ_IMPORTS = ["RM.ModelBasic", "RMR.RunC13"]
 COQ_FN = "RunC13.run"
 COQ_CASE_TY = "RunC13.case"
